@@ -53,7 +53,7 @@ RestrAt(N, v) == CASE v = 0 -> <<Ty(N.user)>>
                    [] v = 1 -> <<Ty(N.user), Wi(N.user), WithC(Us(N.doc, N.a), N.c), WithC(Wi(N.user), N.c)>>
                    [] v = 2 -> <<WithC(Ty(N.user), N.c), Us(N.doc, N.b), Ty(N.doc)>>
 ExprAt(N, v) == CASE v = 0 -> N.k \o " < 10"
-                  [] v = 1 -> N.k \o " in [1, 2, 3] && (ys[0] == \"a b\" || !flag)"
+                  [] v = 1 -> N.k \o " in [1, 2, 3] && (ys[0] == \"a b\" || !flag) && " \o N.k \o " % 2 == 0 && ys[1] != \"100%\""
                   [] v = 2 -> N.k \o ".size() >= 1 &&\n    ys.all(y, y != 'q')"
 Cond1(N, v) == [name |-> N.c, params |-> <<[name |-> N.k, ty |-> IF v = 2 THEN "list<string>" ELSE "int"], [name |-> "ys", ty |-> "list<string>"], [name |-> "flag", ty |-> "bool"]>>, expr |-> ExprAt(N, v)]
 AllTypesCond == [name |-> "all_types", params |-> <<[name |-> "a", ty |-> "bool"], [name |-> "b", ty |-> "string"], [name |-> "c", ty |-> "int"], [name |-> "d", ty |-> "uint"],
@@ -202,14 +202,26 @@ MutateOne(ts, mu) ==
 RECURSIVE MutateAll(_, _, _)
 MutateAll(ts, mus, k) == IF k > Len(mus) \/ Len(ts) < 3 THEN ts ELSE MutateAll(MutateOne(ts, mus[k]), mus, k + 1)
 
-StyleOf(s) == [ws |-> s.ws, ows |-> s.ows, eol |-> s.eol, ind |-> s.ind, blank |-> s.blank, cmt |-> s.cmt, trail |-> s.trail, multi |-> s.multi, lead |-> s.lead, fin |-> s.fin]
+StyleOf(s) == [ws |-> s.ws, ows |-> s.ows, eol |-> s.eol, ind |-> s.ind, blank |-> s.blank, cmt |-> s.cmt, trail |-> s.trail, multi |-> s.multi, lead |-> s.lead, fin |-> s.fin,
+               cind |-> IF "cind" \in DOMAIN s THEN s.cind ELSE 1, pad |-> IF "pad" \in DOMAIN s THEN s.pad ELSE 0]
+
+\* a document whose canonical one-line rendering of a restriction list is longer than 64 KiB although (with style multi) none of its own lines is
+WideDoc ==
+  LET long(i) == "team_" \o Dbl("x", 10) \o "_" \o ToString(i)
+  IN [header |-> "model", schema |-> "1.1", module |-> "",
+      types |-> << [name |-> "user", ext |-> FALSE, rels |-> <<>>],
+                   [name |-> "doc", ext |-> FALSE,
+                    rels |-> << [name |-> "a", rw |-> [k |-> "union", ch |-> << [k |-> "this"], [k |-> "cu", rel |-> "b"] >>], restr |-> <<Ty("user")>> \o [i \in 1..90 |-> Us(long(i), "member")]],
+                                [name |-> "b", rw |-> [k |-> "this"], restr |-> <<Ty("user")>>],
+                                [name |-> "c", rw |-> [k |-> "cu", rel |-> "b"], restr |-> <<>>] >>] >>,
+      conds |-> <<>>]
 
 Init == ji \in 1..NumJobs /\ job = <<>>
 Load == job = <<>> /\ job' = JobAt(ji) /\ UNCHANGED ji
 \* two steps: the rendering is kept in the state so that it is evaluated once (TLC re-evaluates LET definitions at every
 \* reference from inside a constructor), then printed
 Layout == /\ job # <<>> /\ "R" \notin DOMAIN job
-          /\ LET D0 == IF "kw" \in DOMAIN job THEN KwDoc(job.kw[1], job.kw[2]) ELSE DocAt(job.doc)
+          /\ LET D0 == IF "kw" \in DOMAIN job THEN KwDoc(job.kw[1], job.kw[2]) ELSE IF "wide" \in DOMAIN job THEN WideDoc ELSE DocAt(job.doc)
                  N == Names(job.doc % 3)
                  V == IF job.viol = 0 THEN [viol |-> "", tag |-> <<>>, doc |-> D0] ELSE Violate(D0, job.viol, job.vsite, N)
                  ts == IF "mut" \in DOMAIN job THEN MutateAll(Tokens(V.doc), job.mut, 1) ELSE Tokens(V.doc)
